@@ -275,6 +275,7 @@ fn operators() -> Vec<DataOperator<'static>> {
         DataOperator::Equals(Cow::Borrowed("say \"hi\"")), DataOperator::Equals(Cow::Borrowed("back\\")),
         DataOperator::EqualsInt(0), DataOperator::EqualsInt(-7), DataOperator::EqualsInt(isize::MAX), DataOperator::EqualsInt(isize::MIN),
         DataOperator::EqualsFloat(0.0), DataOperator::EqualsFloat(3.0), DataOperator::EqualsFloat(-2.25), DataOperator::EqualsFloat(1e16), DataOperator::EqualsFloat(1e-7),
+        DataOperator::EqualsFloat(1e19), DataOperator::EqualsFloat(-1e19), DataOperator::EqualsFloat(9.3e18), DataOperator::EqualsFloat(1e300), DataOperator::EqualsFloat(f64::MAX), DataOperator::EqualsFloat(-0.0), DataOperator::EqualsFloat(5e-324), DataOperator::EqualsFloat(123456789.125), DataOperator::GreaterThanFloat(-3e25), DataOperator::LessThanOrEqualFloat(18446744073709551616.0),
         DataOperator::GreaterThan(5), DataOperator::GreaterThanOrEqual(-5), DataOperator::LessThan(0), DataOperator::LessThanOrEqual(9),
         DataOperator::GreaterThanFloat(1.0), DataOperator::GreaterThanOrEqualFloat(0.5), DataOperator::LessThanFloat(-1.0), DataOperator::LessThanOrEqualFloat(2.0),
         DataOperator::Not(Box::new(DataOperator::Equals(Cow::Borrowed("x")))), DataOperator::Not(Box::new(DataOperator::EqualsInt(3))), DataOperator::Not(Box::new(DataOperator::EqualsFloat(3.0))),
